@@ -76,3 +76,37 @@ Definition copula_chain_variance_matrix (ms : list (Q * bool)) (outs : list Q) :
 (* the code before d166938: joint flag from the Blumenthal-Getoor indices *)
 Definition copula_chain_variance_matrix_orig (bgs : list Q) (ms : list (Q * bool)) (outs : list Q) : list (list Q) :=
   copula_chain_variance_matrix_j (copula_joint_fv_orig bgs) ms outs.
+
+(* ================= wave 8 (audit 5a, B6): WHAT vol_adjustment_ij integrates, on 2-d density tables =================
+   markovchainlevycopula.py:50-62,76-81: ranges = [-h/2, h/2]^d for EVERY coordinate;
+     i = j : 2/h^(d-1) * int_cube |s_i| * mass([s_i, h/2] (or [-h/2, s_i]) x central cell of the OTHER coordinates) ds
+           = int over the central CUBE of x_i^2 nu(dx)                                (Fubini; not formalised -- tied numerically)
+     i <> j: 1/h^(d-2) * int_cube sign(s_i) sign(s_j) * mass(...) ds = int over the central cube of x_i x_j nu(dx)
+   NOT the margin's central cell {|x_i| <= h/2} x R^(d-1): jumps with |x_i| <= h/2 and some |x_j| > h/2 are left out.
+   Tables: pieces (lo1, hi1, lo2, hi2, density), each inside one closed quadrant (harness/stepmeasure.py Table2); the margins of
+   a table are step measures and LevyCopulaModel.mass of a rectangle is the integral of the density. *)
+(* int_{[lo,hi] cap [a,b]} x^n dx for n = 0, 1, 2 (0 when the intersection is empty) *)
+Definition clip_m0 (lo hi a b : Q) : Q := let l := Qmaxb lo a in let u := Qminb hi b in if Qle_bool l u then u - l else 0.
+Definition clip_m1 (lo hi a b : Q) : Q := let l := Qmaxb lo a in let u := Qminb hi b in if Qle_bool l u then (u * u - l * l) / 2 else 0.
+Definition clip_m2 (lo hi a b : Q) : Q := let l := Qmaxb lo a in let u := Qminb hi b in if Qle_bool l u then (u * u * u - l * l * l) / 3 else 0.
+Definition table2 := list (Q * Q * Q * Q * Q).
+Definition qsum' (l : list Q) : Q := fold_right Qplus 0 l.
+(* int over [a1,b1] x [a2,b2] of x_k^2 nu(dx) (k = 0, 1) and of x_0 x_1 nu(dx) *)
+Definition tab2_m2 (t : table2) (k : nat) (a1 b1 a2 b2 : Q) : Q :=
+  qsum' (map (fun p => match p with (lo1, hi1, lo2, hi2, d) =>
+     d * (match k with O => clip_m2 lo1 hi1 a1 b1 * clip_m0 lo2 hi2 a2 b2 | _ => clip_m0 lo1 hi1 a1 b1 * clip_m2 lo2 hi2 a2 b2 end) end) t).
+Definition tab2_m11 (t : table2) (a1 b1 a2 b2 : Q) : Q :=
+  qsum' (map (fun p => match p with (lo1, hi1, lo2, hi2, d) => d * (clip_m1 lo1 hi1 a1 b1 * clip_m1 lo2 hi2 a2 b2) end) t).
+(* vol_adjustment_ij on a table: the central cube *)
+Definition tab2_vadj (t : table2) (h : Q) (i j : nat) : Q :=
+  if Nat.eqb i j then tab2_m2 t i (- (h / 2)) (h / 2) (- (h / 2)) (h / 2) else tab2_m11 t (- (h / 2)) (h / 2) (- (h / 2)) (h / 2).
+(* second-moment function of margin k of the table (the other coordinate runs over the whole support [-big, big]):
+   what the 1-d chain of that margin integrates over its central cell *)
+Definition tab2_margin_m2 (t : table2) (big : Q) (k : nat) (a b : Q) : Q :=
+  match k with O => tab2_m2 t 0 a b (- big) big | _ => tab2_m2 t 1 (- big) big a b end.
+(* second moment of x_k over the part of margin k's central cell that lies OUTSIDE the central cube *)
+Definition tab2_strip_gap (t : table2) (big h : Q) (k : nat) : Q :=
+  tab2_margin_m2 t big k (- (h / 2)) (h / 2) - tab2_vadj t h k k.
+(* executable: the matrix handed to sqrtm by the copula chain of a table whose two margins are flagged infinite variation *)
+Definition table_chain_variance_matrix (t : table2) (h s0 s1 : Q) : list (list Q) :=
+  copula_chain_variance_matrix [(s0, false); (s1, false)] [tab2_vadj t h 0 0; tab2_vadj t h 0 1; tab2_vadj t h 1 1].
